@@ -163,3 +163,30 @@ Theorem C10_verify_sound_against_map :
         (q_value q = [] -> forall v, ~ In (to_bools k, v) (tomap t)) /\
         (to_bools k <> to_bools (q_key q) -> forall v, ~ In (to_bools k, v) (tomap t)).
 Proof. exact @verify_claims. Qed.
+
+From LE Require Import SMT.Prove.
+Local Open Scope N_scope.
+(* NON-VACUITY of the Verify theorems (audit round 7, L2): with a free (injective, domain-separated) hash over byte keys the
+   faithful Verify ACCEPTS the proof that the model of trie.Prove generates — three keys of one byte, two present and
+   one absent — so "verify ... = VTrue" in C10_verify_sound / C10_verify_sound_against_map is satisfiable, the conclusions
+   hold on this instance, and a changed value is rejected.  (ex_trie is reachable by batches, hence well-formed by
+   C10_reachable_tries_wf.) *)
+Inductive bh := BE | BL (k v : list N) | BB (l r : bh).
+Fixpoint bh_eqb (a b : bh) : bool :=
+  match a, b with
+  | BE, BE => true
+  | BL k v, BL k' v' => bytes_eqb k k' && bytes_eqb v v'
+  | BB l r, BB l' r' => bh_eqb l l' && bh_eqb r r'
+  | _, _ => false
+  end.
+Definition ex_trie : @T (list N) :=
+  fold_left (batch_update 8)
+    [[(to_bools [0x11], Some [1]); (to_bools [0x90], Some [2])]; [(to_bools [0x13], Some [3]); (to_bools [0x90], Some [4])]] E.
+Definition ex_root : bh := hash BE (ClaimsTop.hleaf BL) BB ex_trie.
+Definition ex_keys : list (list N) := [[0x13]; [0x90]; [0x40]].
+Example C10_ex_verify_accepts :
+  let '(sibs, qs) := prove BE BL BB bh_eqb ex_trie ex_keys in
+  verify BE BL BB bh_eqb (fun _ => false) ex_keys sibs qs ex_root 1 = VTrue /\
+  map q_value qs = [[3]; [4]; []] /\
+  verify BE BL BB bh_eqb (fun _ => false) ex_keys sibs (Q [0x13] [9] (q_bitmap (nth 0 qs (Q [] [] []))) :: tl qs) ex_root 1 = VFalse.
+Proof. vm_compute. repeat split; reflexivity. Qed.
